@@ -5,13 +5,13 @@ import json, os, re, subprocess, sys, time
 root = "/verif/seeded"
 only = sys.argv[1:]
 rows = []
-for sid in sorted(os.listdir(root)):
+from concurrent.futures import ThreadPoolExecutor
+JOBS = int(os.environ.get("RECHECK_JOBS", "3"))
+
+
+def one(sid):
     d = os.path.join(root, sid)
     mp = os.path.join(d, "meta.json")
-    if not os.path.isdir(d) or not os.path.exists(mp):
-        continue
-    if only and sid not in only:
-        continue
     m = json.load(open(mp))
     pids = [m.get("property")] + list(m.get("also_try", []))
     caught = None
@@ -34,5 +34,17 @@ for sid in sorted(os.listdir(root)):
     m["outcome"] = ("caught by check " + detail) if caught else ("MISSED" if not detail else detail)
     m["rechecked_at_repo_head"] = subprocess.run(["git", "-C", "/repo", "rev-parse", "--short", "HEAD"], stdout=subprocess.PIPE, text=True).stdout.strip()
     json.dump(m, open(mp, "w"), indent=1)
-    rows.append((sid, m["outcome"]))
     print(sid, "->", m["outcome"], flush=True)
+    return sid, m["outcome"]
+
+
+ids = []
+for sid in sorted(os.listdir(root)):
+    d = os.path.join(root, sid)
+    if not os.path.isdir(d) or not os.path.exists(os.path.join(d, "meta.json")):
+        continue
+    if only and sid not in only:
+        continue
+    ids.append(sid)
+with ThreadPoolExecutor(max_workers=JOBS) as ex:
+    rows = list(ex.map(one, ids))
